@@ -281,23 +281,33 @@ pub fn configs(prop: &str, thorough: bool) -> Vec<(Cfg, Option<usize>)> {
                 if !thorough && n.starts_with("A1,B5,C1/q") {
                     continue;
                 }
-                let mut c = Cfg::base(&format!("C06/flex/{n}/edits"), true);
-                c.props = Props { c06: true, c03: true, ..Default::default() };
-                c.actors = vec!["A", "B", "C", "X", "ADM"];
-                c.group_admin = 4;
-                c.voters = wv.clone();
-                c.th = th;
-                c.max_props = if thorough { 2 } else { 1 };
-                c.proposers = vec![0, 3];
-                c.votes = vec![VoteA::Yes, VoteA::No];
-                c.voters_acting = vec![0, 1, 2, 3];
-                c.executors = vec![3];
-                c.closers = vec![3];
-                c.blocks = if thorough { 3 } else { 2 };
-                c.edits = edits.clone();
-                c.editors = vec![4, 0];
-                c.max_edits = if thorough { 3 } else { 2 };
-                out.push((c, None));
+                // shapes (proposals, group edits, blocks after opening); sized so that every configuration reaches its fixpoint within memory
+                let shapes: Vec<(usize, u8, u64)> = if !thorough {
+                    vec![(1, 2, 2)]
+                } else if wv.len() >= 3 {
+                    vec![(2, 1, 2), (1, 3, 3)]
+                } else {
+                    vec![(2, 2, 2), (1, 3, 3)]
+                };
+                for (np, ne, nb) in shapes {
+                    let mut c = Cfg::base(&if thorough { format!("C06/flex/{n}/edits/{np}p{ne}e{nb}b") } else { format!("C06/flex/{n}/edits") }, true);
+                    c.props = Props { c06: true, c03: true, ..Default::default() };
+                    c.actors = vec!["A", "B", "C", "X", "ADM"];
+                    c.group_admin = 4;
+                    c.voters = wv.clone();
+                    c.th = th;
+                    c.max_props = np;
+                    c.proposers = vec![0, 3];
+                    c.votes = vec![VoteA::Yes, VoteA::No];
+                    c.voters_acting = vec![0, 1, 2, 3];
+                    c.executors = vec![3];
+                    c.closers = vec![3];
+                    c.blocks = nb;
+                    c.edits = edits.clone();
+                    c.editors = vec![4, 0];
+                    c.max_edits = ne;
+                    out.push((c, None));
+                }
             }
         }
         "C15" => {
